@@ -33,7 +33,7 @@ MUT = [
  ("C14_revert_and", ["C14"], V, "return it != data.end() && morton::Decode(*it) == p;", "return it != data.end() || morton::Decode(*it) == p;"),
  ("C15_source_index_not_reset", ["C15"], D, "            if (has_pgm(i))\n                pgm(i) = PGMType();\n        }", "        }"),
  ("C15_slots_required_off_by_one", ["C15"], D, "            if (slots_required <= slots_left_in_level)\n                break;", "            if (slots_required <= slots_left_in_level + 1)\n                break;"),
- ("C15_index_not_rebuilt_sometimes", ["C15", "C05"], D, "        if (has_pgm(target))\n            pgm(target) = PGMType(level(target).begin(), level(target).end());", "        if (has_pgm(target) && (level(target).size() % 5 != 3 || pgm(target).segments_count() == 0))\n            pgm(target) = PGMType(level(target).begin(), level(target).end());"),
+ ("C15_index_not_rebuilt_sometimes", ["C15", "C05"], D, "        if (has_pgm(target))\n            pgm(target) = PGMType(level(target).begin(), level(target).end());", "        if (has_pgm(target) && level(target).size() % 5 != 3)\n            pgm(target) = PGMType(level(target).begin(), level(target).end());"),
  ("C16_memo_in_search", ["C16"], P, "    ApproxPos search(const K &key) const {\n        auto k = std::max(first_key, key);", "    ApproxPos search(const K &key) const {\n        static size_t memo_calls = 0; ++memo_calls;\n        auto k = std::max(first_key, key);"),
  ("C17_no_sentinel_segment", ["C17", "C02"], P, "                segments.emplace_back(sentinel, 0, last_n);\n            }", "                if (segments.size() % 3 != 1) segments.emplace_back(sentinel, 0, last_n);\n            }"),
  ("C17_hi_not_capped", ["C17", "C01"], P, "        auto hi = PGM_ADD_EPS(pos, Epsilon, n);\n        return {pos, lo, hi};\n    }\n\n    /**\n     * Returns the number of segments in the last level of the index.", "        auto hi = pos + Epsilon + 2;\n        return {pos, lo, hi};\n    }\n\n    /**\n     * Returns the number of segments in the last level of the index."),
